@@ -47,9 +47,9 @@ func planFor(prop, tier string) plan {
 		return plan{runs: q(2400), batch: 1, detSample: 6, watchdog: "60s"}
 	case "C16":
 		if thorough {
-			return plan{batch: 100, race: true, secs: secs, extraSecs: secs / 2, detSample: 48, watchdog: "180s"}
+			return plan{batch: 16, race: true, secs: secs, extraSecs: secs / 2, detSample: 48, watchdog: "180s"}
 		}
-		return plan{runs: q(2400), batch: 50, race: true, detSample: 6, watchdog: "60s"}
+		return plan{runs: q(3200), batch: 16, race: true, detSample: 6, watchdog: "60s"}
 	case "C19":
 		if thorough {
 			return plan{batch: 100, secs: secs, detSample: 48, watchdog: "180s"}
@@ -564,6 +564,29 @@ func drive(prop, tier string) int {
 	}
 
 	// ---- violations -----------------------------------------------------
+	if len(a.found) > 0 {
+		bySig := map[string]int{}
+		runsBad := map[uint64]bool{}
+		for _, f := range a.found {
+			bySig[f.sig]++
+			runsBad[f.runIndex] = true
+		}
+		var ks []string
+		for k := range bySig {
+			ks = append(ks, k)
+		}
+		sort.Strings(ks)
+		fmt.Printf("violating runs: %d of %d\n", len(runsBad), a.runs)
+		for _, k := range ks {
+			fmt.Printf("  %6d x %s\n", bySig[k], k)
+		}
+	}
+	if os.Getenv("VERIF_NO_CONFIRM") != "" {
+		if len(a.found) > 0 {
+			return 1
+		}
+		return 0
+	}
 	violations := 0
 	knownHits := 0
 	reported := map[string]bool{}
@@ -604,7 +627,11 @@ func drive(prop, tier string) int {
 	// ---- evidence -------------------------------------------------------
 	wall := time.Since(start).Seconds()
 	ev := e.evidence(pl, a, wall, mainWall, mainRuns, extraRuns, violations, knownHits, detChecked, detMismatch, infra, replayFiles)
-	evPath := filepath.Join(e.verif, "evidence", prop+".json")
+	evDir := os.Getenv("VERIF_EVIDENCE_DIR")
+	if evDir == "" {
+		evDir = filepath.Join(e.verif, "evidence")
+	}
+	evPath := filepath.Join(evDir, prop+".json")
 	_ = os.MkdirAll(filepath.Dir(evPath), 0o755)
 	if err := writeJSON(evPath, ev); err != nil {
 		fmt.Fprintln(os.Stderr, "drive: cannot write evidence:", err)
@@ -640,7 +667,10 @@ func drive(prop, tier string) int {
 // replay file.
 func (e *driverEnv) confirmAndMinimise(pl plan, f found) (path string, sigs []string, detail string) {
 	race := pl.race
-	replayDir := filepath.Join(e.verif, "replays")
+	replayDir := os.Getenv("VERIF_REPLAY_DIR")
+	if replayDir == "" {
+		replayDir = filepath.Join(e.verif, "replays")
+	}
 	_ = os.MkdirAll(replayDir, 0o755)
 	path = filepath.Join(replayDir, fmt.Sprintf("%s-%d-%d.json", e.prop, e.base, f.runIndex))
 	descPath := filepath.Join(e.tmp, fmt.Sprintf("desc-%d.json", f.runIndex))
